@@ -259,6 +259,23 @@ def v6_list_cases():
     return out
 
 
+NEAR_MISSES = tuple(-10 - shape for shape in range(1, 26))
+
+
+def near_miss_cases():
+    """phase-2 responses that are near misses of the CORRECT response: every proper prefix length class (1, 2, 8, 32, 63 of 64 hex
+    characters; 0 = no response = phase 1 is in the alphabet anyway), the 16 one-character guesses, correct+suffix, doubled, upper
+    case, first character dropped.  Oracle: only the exact correct response authenticates."""
+    out = []
+    for key in NEAR_MISSES:
+        # same-id flow, cross-id flow (challenge obtained for B, response a near miss of A's), on an authenticated connection
+        out.append(case_of(SETUP2 + [msg(1, A), msg(1, A, key=key), msg(1, A), msg(1, A, key=-2)]))
+        out.append(case_of(SETUP2 + [msg(1, B), msg(1, A, key=key), msg(2, A), msg(2, A, key=key, tun=1), msg(2, A, key=-2)]))
+    for key in (-11, -15, -16, -18):
+        out.append(case_of(SETUP2 + [msg(1, B), msg(1, B, key=-2), msg(1, A), msg(1, A, key=key), msg(1, B), msg(2, A), msg(2, A, key=-2)]))
+    return out
+
+
 def restart_cases():
     """blacklist entries of every form (exact IP / CIDR, 1 h / permanent) must still gate after a restart over the same
     storage; lapsed short-lived entries must not come back; bans and failure counts are in memory only"""
@@ -334,7 +351,7 @@ def random_case(rng, nconn=3, naddr=2, length=None):
             elif kind < 0.9:
                 ops.append(msg(k, x, key=-2, chal=rng.randrange(1, 6), tun=tun))          # some (stale / foreign / future) challenge
             else:
-                ops.append(msg(k, x, key=rng.choice((0,) + EXOTIC_KEYS), tun=tun))
+                ops.append(msg(k, x, key=rng.choice((0,) + EXOTIC_KEYS + NEAR_MISSES[:8]), tun=tun))
         elif r < 0.60 and first_connects < 8:
             first_connects += 1
             ncli += 1
@@ -591,6 +608,7 @@ def run(ctx, only_cases=None):
         cases += shape_cases()
         cases += overlap_cases()
         cases += covering_entry_cases()
+        cases += near_miss_cases()
         cases += v6_list_cases()
         cases += perm_ban_cases()
         cases += reban_cases(12 if thorough else 4)
